@@ -196,7 +196,7 @@ CLAIMED = {
                 "arbitrary histories against Key -> Option (key ptr, value ptr, node) plus the live-block ledger. Tied to /repo by "
                 "differential execution (closure over 3-5 keys incl. allocation failures, random histories) comparing return codes, "
                 "iterator contents, size, tree dump and malloc/free log; one-entry-per-key reference dict + ledger oracle.",
-        "note": TB,
+        "note": TB + " Translator tie (tools/c2lean_map.py, Tree/TieMap.lean, 12 theorems): cstl_map_insert (find remembering the parent, malloc, hinted insert, return codes 1/0/-1, iterator), find, erase, erase by iterator, the node alloc/free/clear steps are regenerated from the C AST of map.c on every run and proved equal to the model's map layer; the rbtree calls, malloc/free and the clear traversal are primitives of the translation.",
         "technique": "Lean 4 proof (refinement to a partial-function spec over operation lists) + model/implementation correspondence check",
     },
     "C11": {
@@ -211,7 +211,7 @@ CLAIMED = {
                 "values x every selector x every pivot draw list x element sizes 1,2,3,4,8,16 (fast paths and memcpy path) under ASan "
                 "with red-zoned buffers, adversarial larger inputs and random scripts, comparing final arrays AND the exact "
                 "comparator/swap call logs; sortedness + multiset + byte-pattern oracle.",
-        "note": TB + " C stack depth of the recursive quicksort is not modelled (adversarial sizes stay far below the limit); byte-level cstl_swap is modelled as exchange and validated at each element width.",
+        "note": TB + " Translator tie (tools/c2lean_sort.py, Sort/Tie.lean, 48 theorems): partition with both scans, pivot selection incl. rand() and median-of-three, quicksort recursion, heapsort child selection / sift-down / heapify / extract, selector dispatch, search, find, reverse are regenerated from the C AST of array.c on every run (pointer arithmetic arr + i*size becomes element indices, C int and size_t conversions explicit) and tied to the model; c_sort_sorted_perm states that the TRANSLATED C function returns a sorted permutation. The comparator, cstl_swap and rand() are primitives of the translation. C stack depth of the recursive quicksort is not modelled (adversarial sizes stay far below the limit); byte-level cstl_swap is modelled as exchange and validated at each element width.",
         "technique": "Lean 4 proof (loop invariants, permutation/sortedness by induction, termination measures) + call-log-exact correspondence check",
     },
     "C06": {
